@@ -90,11 +90,27 @@ func splitRet(name, rest string) sysEv {
 	return sysEv{name: name, args: rest[:loc[0]], ret: strings.TrimSpace(rest[loc[2]:loc[3]])}
 }
 
-func straceCheck(h jrnkit.History, idx int) {
+// straceInfo: what the syscall log says about the first commit of a fresh store.
+type straceInfo struct {
+	OK bool
+	// ManifestFirst: the manifest was renamed into place before the first acknowledgement
+	ManifestFirst bool
+	// DurableAtManifest: journal bytes written AND fsynced when that rename happened; crash images
+	// "manifest already names the in-flight root" are possible exactly for journal prefixes >= it
+	DurableAtManifest int64
+	Excerpt           []string
+}
+
+func straceCheck(h jrnkit.History, idx int) (info straceInfo) {
 	if _, err := exec.LookPath("strace"); err != nil {
 		e.Rep.Note("strace not available: syscall-level ack/fsync witness skipped")
 		return
 	}
+	defer func() {
+		if info.OK && info.ManifestFirst {
+			e.Rep.Hit(fmt.Sprintf("strace:journal-durable-at-first-manifest-rename=%v", info.DurableAtManifest > 0))
+		}
+	}()
 	kc := kase{Hist: h, Op: "strace"}
 	dir := filepath.Join(fastScratch(), fmt.Sprintf("strace%d", idx))
 	os.RemoveAll(dir)
@@ -110,16 +126,16 @@ func straceCheck(h jrnkit.History, idx int) {
 	out, err := cmd.CombinedOutput()
 	if err != nil {
 		e.Rep.Note("strace worker failed (skipped): " + err.Error() + " " + trunc(string(out)))
-		return
+		return info
 	}
 	evs, err := parseStrace(log)
 	if err != nil {
 		e.Rep.Note("strace log unreadable: " + err.Error())
-		return
+		return info
 	}
 	jfd := ""
 	lastWrite, lastSync := -1, -1
-	var maxEnd int64
+	var maxEnd, syncedEnd int64
 	firstJournalWrite, manifestRename := -1, -1
 	acks := 0
 	for i, ev := range evs {
@@ -148,10 +164,15 @@ func straceCheck(h jrnkit.History, idx int) {
 		case "fsync", "fdatasync":
 			if strings.TrimSpace(ev.args) == jfd && jfd != "" && strings.HasPrefix(ev.ret, "0") {
 				lastSync = i
+				syncedEnd = maxEnd
 			}
 		case "rename", "renameat", "renameat2":
 			if strings.Contains(ev.args, "/manifest\"") && manifestRename < 0 {
 				manifestRename = i
+				if acks == 0 {
+					info.ManifestFirst = true
+					info.DurableAtManifest = syncedEnd
+				}
 			}
 		case "write":
 			if strings.Contains(ev.args, "\"VERIF-ACK ") {
@@ -172,9 +193,20 @@ func straceCheck(h jrnkit.History, idx int) {
 		e.Rep.Disagree(kc, fmt.Sprintf("%d ack markers in the strace log", acks), fmt.Sprint(len(h.Commits)), "strace worker")
 		return
 	}
+	info.OK = true
+	for _, ev := range evs {
+		if ev.name == "write" && strings.Contains(ev.args, "VERIF-ACK 0 ") {
+			break
+		}
+		if (ev.name == "pwrite64" || ev.name == "fsync" || strings.HasPrefix(ev.name, "rename") || ev.name == "openat") &&
+			(strings.Contains(ev.args, "manifest") || strings.Contains(ev.args, nbs.VerifJrnFileName) || ev.name == "pwrite64" || ev.name == "fsync") {
+			info.Excerpt = append(info.Excerpt, ev.name+"("+trunc(ev.args)+") = "+ev.ret)
+		}
+	}
 	e.Rep.TracesValidated++
 	e.Rep.Hit("strace:histories")
 	if manifestRename >= 0 && (firstJournalWrite < 0 || manifestRename < firstJournalWrite) {
 		e.Rep.Hit("strace:manifest-renamed-before-first-journal-write")
 	}
+	return info
 }
